@@ -120,6 +120,10 @@ def gen(tier, seed):
     add("matmul", {"v": 4}, "x2 = matmul(z2, y2)")
     add("matmul", {"v": 5}, "x = matmul(z2, x)")
     add("matmul", {"v": 6}, "xl = matmul(z2, yl)", 0, 2)
+    # result and operand are slabs of ONE array selected by different index expressions (equal at run time or not)
+    add("matmul", {"v": 7}, "x2(:,i1) = matmul(z2, x2(:,i2))")
+    add("matmul", {"v": 8}, "x2(:,i1) = matmul(z2, x2(:,i1+1))")
+    add("matmul", {"v": 9}, "x2(:,1) = matmul(z2, x2(:,2))")
     # --- reductions
     for op in ["sum", "product", "minval", "maxval"]:
         add("red", {"op": op, "v": 1}, f"r = {op}(x)")
